@@ -1,6 +1,5 @@
 //! C03 — leaving a scope restores the allocator exactly; earlier data survives; chunks acquired inside stay.
 use crate::common::*;
-use crate::step::Win;
 use bump_scope::alloc::Allocator;
 use bump_scope::settings::BumpAllocatorSettings;
 use bump_scope::traits::BumpAllocatorCore;
@@ -14,8 +13,10 @@ struct Work {
     l2: Layout,
 }
 
-fn any_work() -> Work {
-    Work { l1: any_layout(16, 4), l2: any_layout(8, 3) }
+/// FORCE: the first allocation cannot fit in the 16-byte chunk (concrete layout => the chunk switch is certain and
+/// the requested chunk size is a constant); otherwise both layouts are symbolic and have to cope inside the chunk
+fn any_work<const FORCE: bool>() -> Work {
+    Work { l1: if FORCE { Layout::from_size_align(24, 8).unwrap() } else { any_layout(16, 4) }, l2: any_layout(8, 3) }
 }
 
 fn run<A, St: BumpAllocatorSettings>(s: &BumpScope<'_, A, St>, w: Work) -> (usize, usize)
@@ -34,7 +35,7 @@ where
 }
 
 /// KIND: 0 scoped, 1 scope_guard + drop, 2 scope_guard + reset() (guard kept), 3 checkpoint + reset_to, 4 scoped_aligned::<8>
-fn scope_body<St: BumpAllocatorSettings, const KIND: u8>(inner_budget: usize)
+fn scope_body<St: BumpAllocatorSettings, const KIND: u8, const FORCE: bool>(inner_budget: usize)
 where
     VA: BaseAllocator<St::GuaranteedAllocated>,
 {
@@ -53,7 +54,7 @@ where
     let allocated0 = bump.stats().allocated();
     let pos0 = addr(bump.stats().current_chunk().unwrap().bump_position());
     let chunk0 = addr(bump.stats().current_chunk().unwrap().chunk_start());
-    let work = any_work();
+    let work = any_work::<FORCE>();
 
     set_budget(inner_budget);
     let first = leave::<St, KIND>(&mut bump, work);
@@ -130,12 +131,12 @@ where
 }
 
 macro_rules! scope_harness {
-    ($name:ident, $S:ty, $kind:literal, $budget:expr) => {
+    ($name:ident, $S:ty, $kind:literal, $budget:literal) => {
         #[kani::proof]
         #[kani::unwind(6)]
         #[kani::stub(std::alloc::handle_alloc_error, crate::stubs::hae_stub)]
         fn $name() {
-            scope_body::<$S, $kind>($budget);
+            scope_body::<$S, $kind, { $budget == 1 }>($budget);
         }
     };
 }
@@ -147,3 +148,78 @@ scope_harness!(scope_checkpoint_up1_b1, S<1, true>, 3, 1);
 scope_harness!(scope_checkpoint_down4_b1, S<4, false>, 3, 1);
 scope_harness!(scope_aligned_up1_b1, S<1, true>, 4, 1);
 scope_harness!(scope_aligned_down1_b0, S<1, false>, 4, 0);
+
+/// the Err path of try_alloc_try_with / try_alloc_try_with_mut rewinds to the state before the call, also when the
+/// Result slot had to spill into another chunk (T = [u64; 3]: 32-byte slot > 16 bytes of capacity)
+fn try_with_body<St: BumpAllocatorSettings, T: Default, const MUT: bool>(budget: usize)
+where
+    VA: BaseAllocator<St::GuaranteedAllocated>,
+{
+    set_budget(1);
+    let Ok(mut bump) = Bump::<VA, St>::try_new() else { return };
+    set_budget(0);
+    let w1 = Win::of(bump.stats().current_chunk().unwrap());
+    let la = any_layout(6, 2);
+    let Ok(a) = bump.allocate(la) else { return };
+    let a = a.cast::<u8>();
+    let va: u8 = kani::any();
+    let ia: usize = kani::any();
+    kani::assume(la.size() > 0 && ia < la.size());
+    unsafe { w1.write(addr(a) + ia, va) };
+    let allocated0 = bump.stats().allocated();
+    let pos0 = addr(bump.stats().current_chunk().unwrap().bump_position());
+    let chunk0 = addr(bump.stats().current_chunk().unwrap().chunk_start());
+    set_budget(budget);
+    let fail: bool = kani::any();
+    let mut ok_addr = 0;
+    let outcome: u8 = {
+        let r = if MUT {
+            bump.try_alloc_try_with_mut(|| if fail { Err(7u8) } else { Ok(T::default()) })
+        } else {
+            bump.try_alloc_try_with(|| if fail { Err(7u8) } else { Ok(T::default()) })
+        };
+        match r {
+            Err(_) => 0,
+            Ok(Err(e)) => {
+                assert!(e == 7, "C03: alloc_try_with changed the error value");
+                1
+            }
+            Ok(Ok(b)) => {
+                ok_addr = b.into_raw().as_ptr() as usize;
+                2
+            }
+        }
+    };
+    set_budget(0);
+    kani::cover!(outcome == 1 && bump.stats().count() == 2, "[b1] closure failed after the slot spilled into a new chunk");
+    kani::cover!(outcome == 1 && bump.stats().count() == 1, "[fits] closure failed, slot was in the first chunk");
+    kani::cover!(outcome == 2, "closure succeeded");
+    if outcome != 2 {
+        assert!(bump.stats().allocated() == allocated0, "C03: allocated byte count not restored after alloc_try_with returned Err");
+        let cur = bump.stats().current_chunk().unwrap();
+        assert!(addr(cur.chunk_start()) == chunk0, "C03: current chunk not restored after alloc_try_with returned Err");
+        assert!(addr(cur.bump_position()) == pos0, "C03: bump position not restored after alloc_try_with returned Err");
+    } else {
+        assert!(ok_addr % core::mem::align_of::<T>() == 0, "C01: alloc_try_with returned a misaligned value");
+        assert!(disjoint(ok_addr, core::mem::size_of::<T>(), addr(a), la.size()), "C01: alloc_try_with value overlaps an earlier block");
+    }
+    assert!(unsafe { w1.read(addr(a) + ia) } == va, "C03: an allocation made before changed");
+    core::mem::forget(bump);
+    kani::cover!(true, "END: harness ran to completion");
+}
+
+macro_rules! try_with_harness {
+    ($name:ident, $S:ty, $T:ty, $mutable:literal, $budget:literal) => {
+        #[kani::proof]
+        #[kani::unwind(6)]
+        #[kani::stub(std::alloc::handle_alloc_error, crate::stubs::hae_stub)]
+        fn $name() {
+            try_with_body::<$S, $T, $mutable>($budget);
+        }
+    };
+}
+try_with_harness!(scope_try_with_mut_spill_up1, S<1, true>, [u64; 3], true, 1);
+try_with_harness!(scope_try_with_mut_spill_down1, S<1, false>, [u64; 3], true, 1);
+try_with_harness!(scope_try_with_spill_up1, S<1, true>, [u64; 3], false, 1);
+try_with_harness!(scope_try_with_mut_fits_down4, S<4, false>, u16, true, 0);
+try_with_harness!(scope_try_with_fits_up1, S<1, true>, u16, false, 0);
